@@ -576,6 +576,7 @@ class Interp:
 
     def exec_stmt(self, node, fr):
         self.steps += 1
+        self.ctx.site = (fr.fd.qualname, getattr(node, "lineno", 0))
         if self.steps > self.max_steps:
             raise Unsupported("step budget exceeded")
         m = getattr(self, "s_" + type(node).__name__, None)
@@ -679,7 +680,25 @@ class Interp:
             else:
                 raise Unsupported("del target")
 
+    def _only_safe_logging(self, stmts):
+        """block consists only of logger calls whose arguments are names / attributes / constants (cannot raise)"""
+        for st in stmts:
+            if not (isinstance(st, ast.Expr) and isinstance(st.value, ast.Call) and isinstance(st.value.func, ast.Attribute)
+                    and isinstance(st.value.func.value, ast.Name) and st.value.func.value.id in ("logger", "logging", "log")):
+                return False
+            for a in list(st.value.args) + [k.value for k in st.value.keywords]:
+                for n in ast.walk(a):
+                    if not isinstance(n, (ast.Name, ast.Attribute, ast.Constant, ast.Load)):
+                        return False
+        return True
+
     def s_If(self, node, fr):
+        if self._only_safe_logging(node.body) and self._only_safe_logging(node.orelse):
+            # both branches are effect-free (A7) and cannot raise: evaluate the test for its own exceptions, do not fork
+            v = self.eval(node.test, fr)
+            if isinstance(v, (SObj,)):
+                truth(v)
+            return
         if truth(self.eval(node.test, fr)):
             self.exec_block(node.body, fr)
         else:
